@@ -8,7 +8,7 @@ from .. import gens, refmodel
 RULE = ("Cases: Hypothesis signals of length 3..400 (quick) / 3..2000 (thorough) from all families (noise, random walk, "
         "multi-tone + trend, AM/FM, integer-valued/plateau, constant, ramp, edge-plateau; short noisy signals "
         "over-weighted; stored as float64, float32, int64 or int16) x stop rule (a quarter of the sd / rilling cases with an iteration limit of 1..10) x step size x {splrep,pchip,mono_pchip} x pad_width 1..5, max_imfs=None, no "
-        "energy threshold, default sift_thresh. Oracle: result is a finite [N x K] array or the documented "
+        "energy threshold, sift_thresh in {default, exactly 0, 2% / 20% of sum|x|}. Oracle: result is a finite [N x K] array or the documented "
         "EMDSiftCovergeError; unless sum|last column| < sift_thresh: max|sum_k imf_k - x| <= 1e-9*max|x| and the "
         "last column has < 2 strict interior maxima or < 2 strict interior minima. Exit paths of every extraction "
         "(A input had no extrema / B extrema vanished after >= 1 mean removals / C stop rule fired) are measured "
@@ -30,8 +30,10 @@ def case(draw):
     if sm != 'fixed' and draw(st.integers(0, 3)) == 0:
         # a tight iteration limit: some IMF (often not the first) fails to converge within it
         opts['max_iters'] = draw(st.integers(1, 10))
+    # sift threshold: the default, exactly zero (never cut short: the run must end of its own accord), or a sizeable
+    # fraction of the signal's own absolute sum (cut after the first component or two)
     return {'sig': sig, 'opts': opts, 'interp': draw(st.sampled_from(['splrep', 'pchip', 'mono_pchip'])),
-            'pad': draw(st.integers(1, 5))}
+            'pad': draw(st.integers(1, 5)), 'thresh': draw(st.sampled_from([None, None, None, 0, 0.0, 'rel:0.2', 'rel:0.02']))}
 
 
 @st.composite
@@ -64,8 +66,15 @@ def oracle(case, rec):
     xo = {'pad_width': case['pad']}
     opts = dict(case['opts'])
     thresh = 1e-8
+    kw = {}
+    tsel = case.get('thresh')
+    if tsel is not None and not (tsel in (0, 0.0) and (case['interp'] != 'splrep' or x.size > 150)):
+        # (a zero threshold with PCHIP envelopes or long records means hundreds of 1e-12-sized components: cost only)
+        thresh = float(tsel.split(':')[1]) * np.abs(x).sum() if isinstance(tsel, str) else tsel
+        kw['sift_thresh'] = thresh
+    rec.cls('sift_thresh=%s' % ('default' if not kw else 'zero' if thresh == 0 else 'large'))
     try:
-        imf = emd.sift.sift(gens.arg(xin), imf_opts=dict(opts), envelope_opts=dict(eo), extrema_opts=dict(xo))
+        imf = emd.sift.sift(gens.arg(xin), imf_opts=dict(opts), envelope_opts=dict(eo), extrema_opts=dict(xo), **kw)
     except emd.support.EMDSiftCovergeError:
         rec.cls('outcome=convergence-error')
         return False
